@@ -251,6 +251,8 @@ def busy_table(chk: Check, repo: Repo) -> None:
                     return [Outcome("CLEAR_READY", None)]
                 if n == "self._timer_task.cancel":
                     return [Outcome("CANCEL_TIMER", None)]
+                if n == "self._timer_task.done":
+                    return [Outcome(None, False)]  # the cells with a timer task have it running (pause, extension or slowduration)
                 if n == "asyncio.create_task":
                     return [Outcome(f"SPAWN({ast.unparse(c.args[0])})", Obj("Task", "new"))]
                 if n.startswith("logger.") or n == "round":
@@ -260,6 +262,14 @@ def busy_table(chk: Check, repo: Repo) -> None:
             env = {f"{p0}.wait_time": new_ms, "self._wait_start_time": start, "self._wait_time_ms": cur_ms, "self._last_busy_frame_time": 99.0, "self._received_busy_frames": 0, "self._timer_task": old_task}
             paths = Explorer(cfg, repo, am.step).run(cfg.entry, [], env)
             got = {(tuple(p.env.get("trace", ())), p.env.get("self._wait_time_ms"), p.env.get("self._wait_start_time"), repr(p.env.get("self._timer_task")), p.env.get("self._last_busy_frame_time")) for p in paths}
+            # the count N of the moving time window: a frame more than the cooldown after its predecessor (here 1 s) is counted
+            # whenever the window is open - the timer task runs through pause, extension, slowduration and the decrements -
+            # also when sending has already resumed (no pause running); the first frame of a window is not counted
+            counts = {p.env.get("self._received_busy_frames") for p in paths}
+            want_n = {1 if old_task else 0}
+            # (a running pause without its timer is not a state of the flow control: no count reference for that cell)
+            if not (start is not None and old_task is None):
+              chk.ob("busy-frame-is-counted-while-the-window-is-open", fi.site(), counts == want_n, f"{label}, timer task {'running' if old_task else 'none'}: N after the frame {sorted(map(str, counts))}; reference {sorted(want_n)}" + ("" if counts == want_n else " - the random extension random*N*50ms of the pause this frame starts is computed with too small an N"), key=f"busy-count|{label}|{bool(old_task)}")
             restart = start is None or (cur_ms - (100.0 - start) * 1000) < new_ms
             if restart:
                 want = {(("CLEAR_READY",) + (("CANCEL_TIMER",) if old_task else ()) + ("SPAWN(self._resume_sending())",), new_ms, 100.0, repr(Obj("Task", "new")), 100.0)}
